@@ -1995,6 +1995,7 @@ impl<'a> TokenBasedLuaGenerator<'a> {
                 || (last == '.'
                     && (next_character.is_ascii_alphabetic() || next_character == '_')
                     && self.ends_with_number_literal())
+                || (last == '_' && next_character == '.' && self.ends_with_number_word())
         } else {
             false
         }
@@ -2016,6 +2017,20 @@ impl<'a> TokenBasedLuaGenerator<'a> {
                     .is_some_and(|c| c.is_ascii_digit())
             })
             .unwrap_or(false)
+    }
+
+    /// Returns true when the output ends with a word that starts with a digit (a number
+    /// like `1_`): a period directly after it would be read as part of the number.
+    fn ends_with_number_word(&self) -> bool {
+        let word_start = self
+            .output
+            .rfind(|c: char| !(c.is_ascii_alphanumeric() || c == '_'))
+            .map(|index| index + 1)
+            .unwrap_or(0);
+        self.output[word_start..]
+            .chars()
+            .next()
+            .is_some_and(|c| c.is_ascii_digit())
     }
 
     #[inline]
